@@ -30,6 +30,36 @@ type DDO struct {
 	extra int
 }
 
+// user types that embed a container AND satisfy further interfaces of the standard library (error, a Stringer of
+// their own, json.Marshaler): they are still Lists/Objects and must be treated as such wherever a value is stored
+type DLerr struct {
+	at.List
+	code int
+}
+
+func (d *DLerr) Error() string                { return fmt.Sprintf("list error %d", d.code) }
+func (d *DLerr) MarshalJSON() ([]byte, error) { return []byte("null"), nil }
+
+type DOerr struct {
+	at.Object
+	code int
+}
+
+func (d *DOerr) Error() string                { return fmt.Sprintf("object error %d", d.code) }
+func (d *DOerr) MarshalText() ([]byte, error) { return []byte("text"), nil }
+func (d *DOerr) GoString() string             { return "DOerr" }
+
+func newDLerr(vals ...interface{}) *DLerr {
+	d := &DLerr{List: at.NewList(vals...), code: 7}
+	d.Init(d)
+	return d
+}
+func newDOerr(vals ...interface{}) *DOerr {
+	d := &DOerr{Object: at.NewObject(vals...), code: 7}
+	d.Init(d)
+	return d
+}
+
 func newDL(vals ...interface{}) *DL {
 	d := &DL{List: at.NewList(vals...), tag: "dl"}
 	d.Init(d)
@@ -301,16 +331,18 @@ func c19Retrieval(outer interface{}, level int, isList bool) (msg, sig string) {
 				})
 				return g
 			},
-			"List.ForEachValue": func() interface{} { var g interface{}; h.l.ForEachValue(func(v interface{}) { g = v }); return g },
-			"List.Filter":       func() interface{} { return h.l.Filter(func(v interface{}) bool { return v != "pad" }).Get(0) },
-			"List.Map":          func() interface{} { return h.l.Map(func(i int, v interface{}) interface{} { return v }).Get(1) },
-			"List.SubList":      func() interface{} { return h.l.SubList(1, 0).Get(0) },
-			"List.Concat":       func() interface{} { return at.NewList().Concat(at.NewList(outer)).Get(0) },
-			"List.Reduce":       func() interface{} { return h.l.Reduce(nil, func(a, v interface{}) interface{} { return v }) },
-			"Object.Get":        func() interface{} { return h.o.Get("k") },
-			"Object.GetTF":      func() interface{} { return h.o.GetTF(".k") },
-			"Object.Dict":       func() interface{} { return h.o.Dict()["k"] },
-			"Object.Values":     func() interface{} { return h.o.Values().Filter(func(v interface{}) bool { return v != 1 }).Get(0) },
+			"List.ForEachValue":                     func() interface{} { var g interface{}; h.l.ForEachValue(func(v interface{}) { g = v }); return g },
+			"List.Filter":                           func() interface{} { return h.l.Filter(func(v interface{}) bool { return v != "pad" }).Get(0) },
+			"List.Map":                              func() interface{} { return h.l.Map(func(i int, v interface{}) interface{} { return v }).Get(1) },
+			"List.SubList":                          func() interface{} { return h.l.SubList(1, 0).Get(0) },
+			"List.Concat":                           func() interface{} { return at.NewList().Concat(at.NewList(outer)).Get(0) },
+			"List.Concat(derived argument)":         func() interface{} { return at.NewList(0).Concat(newDL("pad", outer)).Get(2) },
+			"List.Concat(2-level derived argument)": func() interface{} { return newDL(0).Concat(newDDL(outer)).Get(1) },
+			"List.Reduce":                           func() interface{} { return h.l.Reduce(nil, func(a, v interface{}) interface{} { return v }) },
+			"Object.Get":                            func() interface{} { return h.o.Get("k") },
+			"Object.GetTF":                          func() interface{} { return h.o.GetTF(".k") },
+			"Object.Dict":                           func() interface{} { return h.o.Dict()["k"] },
+			"Object.Values":                         func() interface{} { return h.o.Values().Filter(func(v interface{}) bool { return v != 1 }).Get(0) },
 			"Object.ForEach": func() interface{} {
 				var g interface{}
 				h.o.ForEach(func(k string, v interface{}) {
@@ -374,6 +406,7 @@ func c19Retrieval(outer interface{}, level int, isList bool) (msg, sig string) {
 
 func runC19(c *ev.Ctx) {
 	defer sizeSweep(c, "C19")
+	defer c19ExtraInterfaces(c)
 	depth := 4
 	if c.Thorough() {
 		depth = 5
@@ -554,6 +587,35 @@ func runC19(c *ev.Ctx) {
 					})
 				}
 			}
+		}
+	}
+}
+
+// c19ExtraInterfaces: derived values that also implement error / Marshaler interfaces go through the same routes.
+func c19ExtraInterfaces(c *ev.Ctx) {
+	for _, mk := range []func() (interface{}, bool){
+		func() (interface{}, bool) { return newDLerr(1, "a"), true },
+		func() (interface{}, bool) { return newDLerr(), true },
+		func() (interface{}, bool) { return newDOerr("k", 1), false },
+		func() (interface{}, bool) { return newDOerr(), false },
+	} {
+		mk := mk
+		outer, isList := mk()
+		c.Eval(1)
+		c.Nontrivial(fmt.Sprintf("extra-interfaces/%T/%v", outer, isList))
+		var m, sg string
+		if pn, pv := try(func() { m, sg = c19Retrieval(outer, 1, isList) }); pn {
+			m, sg = fmt.Sprintf("store/retrieval routes panicked for %T: %v", outer, pv), "identity/extra-interface-panic"
+		}
+		if m != "" {
+			c.Violate(ev.Violation{Sig: sg, Msg: fmt.Sprintf("[%T, a derived value that also implements error] %s", outer, m), Witness: map[string]interface{}{"type": fmt.Sprintf("%T", outer)}}, func() string {
+				o, il := mk()
+				s := ""
+				if pn, _ := try(func() { _, s = c19Retrieval(o, 1, il) }); pn {
+					return "identity/extra-interface-panic"
+				}
+				return s
+			})
 		}
 	}
 }
